@@ -243,6 +243,43 @@ def run_case(seed):
                 viol('marinate-differs', 'marinated reader: ' + bad)
         except Exception as e:
             viol('marinate-unusable', f"the pickle cannot be used: {type(e).__name__}: {e}")
+    # ---- marinate, the plotfile named through a symbolic link to a directory followed by '..' (the operating system
+    # follows the link before going up: <elsewhere>/post/../plt is <root>/plt when post links to <root>/post; a plotfile
+    # of the same name but another time sits where a purely textual reading of the path would look)
+    rl = random.Random(seed * 1291 + 5)
+    if rl.random() < 0.35 and not out['violations']:
+        import copy
+        out['evals'] += 1
+        name = os.path.basename(path)
+        os.makedirs(os.path.join(root, 'post'))
+        os.makedirs(os.path.join(root, 'elsewhere'))
+        os.symlink(os.path.join(root, 'post'), os.path.join(root, 'elsewhere', 'post'))
+        decoy = copy.deepcopy(pf)
+        decoy.time = 77.5
+        gen.write_plotfile(decoy, os.path.join(root, 'elsewhere', name))
+        spelled = os.path.join(root, 'elsewhere', 'post', '..', name)
+        count("marinate through link/..=yes")
+        res = core.outcome(lambda: run_entry('amr_kitchen.marinate', ['marinate', spelled]))
+        if res[0] != 'ok':
+            viol('marinate-raised', f'marinate {spelled} raised: ' + res[1])
+        else:
+            cands = [os.path.normpath(spelled) + '.pkl', os.path.realpath(spelled) + '.pkl']
+            found = [c for c in cands if os.path.exists(c)]
+            try:
+                # the first marinate left <path>.pkl: the newest candidate is the one just written
+                newest = max(found, key=lambda c: os.stat(c).st_mtime_ns)
+                with open(newest, 'rb') as f:
+                    pk = pickle.load(f)
+                if pk.time != pf.time:
+                    viol('marinate-differs', f"marinated reader of {spelled}: time {pk.time!r}, the Header of that plotfile says {pf.time!r}")
+                else:
+                    got = pk[0:len(keys)][0][0]
+                    d = pf.levels[0].data[0]
+                    if np.asarray(got).tobytes(order='F') != np.asarray(d, dtype='<f8').tobytes(order='F') and \
+                            np.asarray(got).tobytes() != np.asarray(d, dtype='<f8').tobytes(order='C'):
+                        viol('marinate-differs', f"marinated reader of {spelled}: box 0 of level 0 differs from the stored data")
+            except Exception as e:
+                viol('marinate-unusable', f"marinate {spelled}: the pickle cannot be used: {type(e).__name__}: {e}")
     # ---- the model (value order on bit patterns: no NaN)
     if has_nan:
         out['keys'].append(core.khash(seed))
